@@ -12,6 +12,8 @@ from .model import AnalysisError
 MSG = 'nmea2000/message.py'
 UT = 'nmea2000/utils.py'
 
+DEC = 'nmea2000/decoder.py'
+
 def loop_body_events(fn, loop, extra_params=()):
     """SymExec of a for-loop body as if it were a function of the enclosing function's parameters + the loop variable"""
     args = ast.arguments(posonlyargs=[], args=[ast.arg(arg=a.arg) for a in fn.args.args] + [ast.arg(arg=n.id) for n in ast.walk(loop.target) if isinstance(n, ast.Name)] +
@@ -290,6 +292,8 @@ def affine(t, x):
         inner = affine(t[2][0], x)
         if inner is None:
             return None
+        if inner[2] is not None and inner[0] != 0:
+            raise NonAffine('an intermediate result is rounded before it is converted further (rounded twice: ties of the first rounding move the final value by a whole step)')
         digits = 0
         if len(t[2]) > 1:
             if not sym.is_const(t[2][1]):
@@ -314,30 +318,90 @@ def affine(t, x):
         return (inner[0] * f, inner[1] * f, inner[2])
     return None
 
+def _assume(t, p, is_none):
+    """the term with `p is None` decided (and p replaced by None when it is): ite / and / or / not / comparisons folded.  A rounded or
+    arithmetic value is never None."""
+    if not isinstance(t, tuple) or not t or not isinstance(t[0], str):
+        return t
+    if t == p and is_none:
+        return NONE
+    k = t[0]
+    if k == 'cmp' and t[1] in ('is', 'is not', '==', '!=') and (t[3] == NONE or t[2] == NONE):
+        other = _assume(t[2] if t[3] == NONE else t[3], p, is_none)
+        val = None
+        if other == NONE:
+            val = True
+        elif other == p:
+            val = is_none
+        elif other[0] in ('binop', 'const') or (other[0] == 'call' and other[1] in (('name', 'round'), ('name', 'int'), ('name', 'float'), ('attr', ('name', 'math'), 'degrees'))):
+            val = False
+        if val is not None:
+            return C(val if t[1] in ('is', '==') else not val)
+    if k == 'ite':
+        c = _assume(t[1], p, is_none)
+        return sym.mk_ite(c, _assume(t[2], p, is_none), _assume(t[3], p, is_none))
+    if k == 'unop' and t[1] == 'not':
+        return sym.mk_not(_assume(t[2], p, is_none))
+    if k == 'bool':
+        vals = [_assume(x, p, is_none) for x in t[2]]
+        if t[1] == 'and':
+            if any(sym.truth(v) is False for v in vals): return C(False)
+            vals = [v for v in vals if sym.truth(v) is not True]
+            return C(True) if not vals else (vals[0] if len(vals) == 1 else ('bool', 'and', tuple(vals)))
+        if any(sym.truth(v) is True for v in vals): return C(True)
+        vals = [v for v in vals if sym.truth(v) is not False]
+        return C(False) if not vals else (vals[0] if len(vals) == 1 else ('bool', 'or', tuple(vals)))
+    out = [k]
+    for x in t[1:]:
+        if isinstance(x, tuple) and x and isinstance(x[0], str):
+            out.append(_assume(x, p, is_none))
+        elif isinstance(x, tuple):
+            out.append(tuple(_assume(y, p, is_none) if isinstance(y, tuple) and y and isinstance(y[0], str) else y for y in x))
+        else:
+            out.append(x)
+    return tuple(out)
+
 def helper_affine(program, name):
+    """a conversion helper of utils.py, the helpers it calls walked in place: under `argument is None` it must return None; under
+    `argument is not None` every remaining path must return the same affine function of the argument, rounded at most once"""
     u = program.mod('utils')
     fn = u.defs.get(name)
     if fn is None:
         return None, f"utils.{name} not found"
-    ex = sym.SymExec(fn)
+    helpers = {q: f for q, f in u.defs.items() if '.' not in q and q != name}
+    ex = sym.SymExec(fn, inline=helpers)
     try:
         ex.run()
     except sym.Unsupported as e:
         return None, str(e)
     p = ('param', ex.params[0])
-    rets = [e for e in ex.events if e[0] == 'return']
-    none_branch = bool(rets) and sym.conj(rets[0][1]) == [('cmp', 'is', p, NONE)]
-    none_ok = none_branch and rets[0][2] == NONE
-    others = rets[1:] if none_branch else rets
-    if len(others) != 1:
-        return None, f"{len(others)} value-returning paths"
+    def outcomes(is_none):
+        out = []
+        for e in ex.events:
+            if e[0] not in ('return', 'raise'):
+                continue
+            g = [_assume(x, p, is_none) for x in sym.conj(e[1])]
+            if any(sym.truth(x) is False for x in g):
+                continue
+            undecided = [x for x in g if sym.truth(x) is None]
+            out.append((e[0], undecided, _assume(e[2], p, is_none) if e[0] == 'return' else e[2]))
+            if not undecided:
+                break
+        return out
+    on_none = outcomes(True)
+    none_ok = bool(on_none) and on_none[0][0] == 'return' and not on_none[0][1] and on_none[0][2] == NONE
+    vals = outcomes(False)
+    terms = {v for kind, g_, v in vals if kind == 'return'}
+    if any(kind == 'raise' for kind, g_, v in vals) or len(terms) != 1:
+        return None, f"{len(vals)} value-returning paths for a present value"
+    term = next(iter(terms))
     try:
-        a = affine(others[0][2], p)
+        a = affine(term, p)
     except NonAffine as e:
-        return {'nonaffine': str(e), 'line': fn.lineno, 'term': show(others[0][2])}, None
+        return {'nonaffine': str(e), 'line': fn.lineno, 'term': show(term)}, None
     if a is None:
-        return None, 'return value is not an affine function of the argument: ' + show(others[0][2])
-    return {'a': a[0], 'b': a[1], 'digits': a[2], 'none_to_none': none_ok, 'line': fn.lineno, 'term': show(others[0][2])}, None
+        return None, 'return value is not an affine function of the argument: ' + show(term)
+    return {'a': a[0], 'b': a[1], 'digits': a[2], 'none_to_none': none_ok, 'line': fn.lineno, 'term': show(term)}, None
 
 def _unit_rows(chk, program, fn, rows, f):
     exp = set(PHYS)
@@ -361,7 +425,7 @@ def _unit_rows(chk, program, fn, rows, f):
             continue
         if 'nonaffine' in info:
             chk.violation('UNIT-AFFINE', f"{inst}::{v[1][1]}", file=UT, line=info['line'], func=v[1][1], expected='an affine map of the input (optionally rounded)', found=info['term'],
-                          detail=info['nonaffine'] + ': a unit conversion is linear; e.g. a modulo wraps negative values instead of converting them')
+                          detail=info['nonaffine'] + ' -- a unit conversion is one linear map, rounded once')
             continue
         a, b, what = PHYS[(q, lit)]
         a, b = float(a), float(b)
@@ -515,6 +579,89 @@ def unit_semantic(chk, program):
               expected='a recognised preference rewrites value and unit label of the fields of that quantity (ANGLE only when in rad); raw values, other fields and unrecognised preferences: untouched',
               found=problems[:4] or 'ok')
     return rows
+
+def unit_applied(chk, program, rule='UNIT-APPLIED'):
+    """every message the decoder returns went through apply_preferred_units with the decoder's preferences: in _call_decode_function, on every
+    path from the entry to a return of something other than None, a call `<x>.apply_preferred_units(..)` has completed -- except on paths that
+    are only possible when there are no preferences (`if self.preferred_units:` around the call changes nothing).  A bypass decided by anything
+    about the message, the arguments or mutable decoder state is a message returned unconverted; one decided by construction-time configuration
+    only is not judged here (reported as undecided)."""
+    from .cfg import CFG, must_fact, implied_edges
+    from .rules_client import nodes_calling
+    fn = program.fn('decoder', 'NMEA2000Decoder._call_decode_function')
+    g = CFG(fn)
+    gens = sorted({nid for nid, c in nodes_calling(g, lambda c: isinstance(c.func, ast.Attribute) and c.func.attr == 'apply_preferred_units')})
+    if not gens:
+        chk.violation(rule, '_call_decode_function::conversion-called', file=DEC, line=fn.lineno, func='_call_decode_function',
+                      expected='the message is passed through apply_preferred_units before it is returned', found='no call of apply_preferred_units in _call_decode_function (helpers inlined)')
+        return
+    def is_prefs(e):
+        return isinstance(e, ast.Attribute) and e.attr == 'preferred_units' and isinstance(e.value, ast.Name) and e.value.id == 'self'
+    def world(e):          # the world "preferences were given"
+        if is_prefs(e):
+            return True
+        if isinstance(e, ast.Call) and isinstance(e.func, ast.Name) and e.func.id in ('len', 'bool') and len(e.args) == 1 and is_prefs(e.args[0]):
+            return True
+        if isinstance(e, ast.Compare) and len(e.ops) == 1 and isinstance(e.left, ast.Call) and isinstance(e.left.func, ast.Name) and e.left.func.id == 'len' \
+                and len(e.left.args) == 1 and is_prefs(e.left.args[0]) and isinstance(e.comparators[0], ast.Constant) and e.comparators[0].value == 0:
+            return {ast.Gt: True, ast.NotEq: True, ast.Eq: False, ast.LtE: False}.get(type(e.ops[0]), NotImplemented)
+        return NotImplemented
+    done = must_fact(g, gen_nodes=gens, gen_edges=implied_edges(g, world))
+    rets = [n for n in g.nodes if n.kind == 'stmt' and isinstance(n.ast, ast.Return) and n.ast.value is not None
+            and not (isinstance(n.ast.value, ast.Constant) and n.ast.value.value is None)]
+    init = program.fn('decoder', 'NMEA2000Decoder.__init__')
+    config = {n.attr for n in ast.walk(init) if isinstance(n, ast.Attribute) and isinstance(n.ctx, ast.Store) and isinstance(n.value, ast.Name) and n.value.id == 'self'}
+    mutated = set()
+    for q, f in program.mod('decoder').defs.items():
+        if q.startswith('NMEA2000Decoder.') and q != 'NMEA2000Decoder.__init__':
+            for n in ast.walk(f):
+                if isinstance(n, ast.Attribute) and isinstance(n.value, ast.Name) and n.value.id == 'self':
+                    par = getattr(n, '_parent', None)
+                    if isinstance(n.ctx, (ast.Store, ast.Del)):
+                        mutated.add(n.attr)
+                if isinstance(n, ast.Call) and isinstance(n.func, ast.Attribute) and isinstance(n.func.value, ast.Attribute) and isinstance(n.func.value.value, ast.Name) \
+                        and n.func.value.value.id == 'self' and n.func.attr in ('add', 'append', 'update', 'pop', 'remove', 'discard', 'clear', 'setdefault', 'extend', 'insert', 'popitem'):
+                    mutated.add(n.func.value.attr)
+                if isinstance(n, ast.Subscript) and isinstance(n.ctx, (ast.Store, ast.Del)) and isinstance(n.value, ast.Attribute) and isinstance(n.value.value, ast.Name) and n.value.value.id == 'self':
+                    mutated.add(n.value.attr)
+    for r in rets:
+        inst = f"_call_decode_function::return@{ast.unparse(r.ast.value)[:30]}::converted-on-every-path"
+        if done[r.id]:
+            chk.ok(rule, inst, file=DEC, line=r.line, func='_call_decode_function', nontrivial=True)
+            continue
+        # the tests that decide the bypass: one outcome can still reach a conversion, another reaches this return around every conversion
+        around = g.reach(g.entry.id, avoid=gens, include_src=True)
+        deciding = []
+        for t in g.nodes:
+            if t.kind != 'test' or t.id not in around:
+                continue
+            outs = {}
+            for v, lab in g.succ[t.id]:
+                if lab == 'exc':
+                    continue
+                byp = (v == r.id or r.id in g.reach(v, avoid=gens)) and v not in gens
+                conv = v in gens or any(x in gens for x in g.reach(v))
+                outs[lab] = (byp, conv)
+            if any(b for b, c in outs.values()) and any(c and not b for b, c in outs.values()):
+                deciding.append(t)
+        reads_cfg_only = bool(deciding)
+        why = []
+        for t in deciding:
+            for n in ast.walk(t.ast.test):
+                if isinstance(n, ast.Attribute) and isinstance(n.value, ast.Name) and n.value.id == 'self':
+                    if n.attr not in config or n.attr in mutated:
+                        reads_cfg_only = False; why.append(f"self.{n.attr} (changes while decoding)")
+                elif isinstance(n, ast.Name) and n.id != 'self' and not (isinstance(getattr(n, '_parent', None), ast.Attribute) and False):
+                    if n.id not in ('len', 'bool', 'not', 'None', 'True', 'False', 'isinstance'):
+                        reads_cfg_only = False; why.append(n.id)
+        tests = [f"line {t.line}: {ast.unparse(t.ast.test)[:70]}" for t in deciding]
+        if deciding and reads_cfg_only:
+            chk.unknown(rule, inst, f"a return is reachable around the conversion, decided by construction-time configuration only: {tests}", DEC, r.line)
+        else:
+            chk.violation(rule, inst, file=DEC, line=r.line, func='_call_decode_function',
+                          expected='with preferences given, every returned message has been through apply_preferred_units',
+                          found=f"the return at line {r.line} is reachable without the conversion" + (f"; decided by {tests[:3]}" if tests else ''),
+                          detail=('the bypass depends on ' + ', '.join(sorted(set(why))[:4])) if why else '')
 
 def unit_rules(chk, program):
     fn = program.fn('message', 'NMEA2000Message.apply_preferred_units')
